@@ -137,7 +137,7 @@ def literal_segments(chroms, levels, cn1=None, arms=None):
     if cn1 is not None:
         cols["cn"] = list(levels)
         cols["cn1"] = list(cn1)
-        cols["cn2"] = [a - b for a, b in zip(levels, cn1)]
+        cols["cn2"] = [None if b is None else a - b for a, b in zip(levels, cn1)]
     rows = [{c: v[i] for c, v in cols.items()} for i in range(n)]
     g = make_ga("CopyNumArray", rows, {"sample_id": "S", "_arms": list(arms) if arms else None}, index="any", exact=True)
     return g
@@ -145,7 +145,7 @@ def literal_segments(chroms, levels, cn1=None, arms=None):
 
 def want_groups(chroms, levels, cn1=None, arms=None):
     """maximal runs of consecutive rows equal in chromosome (arm), level (and cn1 / cn2)"""
-    key = [(chroms[i], arms[i] if arms else 0, levels[i], cn1[i] if cn1 else 0, (levels[i] - cn1[i]) if cn1 else 0) for i in range(len(levels))]
+    key = [(chroms[i], arms[i] if arms else 0, levels[i], cn1[i] if cn1 else 0, (levels[i] - cn1[i]) if cn1 and cn1[i] is not None else 0) for i in range(len(levels))]
     out = []
     for i, k in enumerate(key):
         if out and key[out[-1][-1]] == k:
@@ -172,6 +172,11 @@ def d2(chk, prog):
     for lv in itertools.product([1, 2], repeat=3):
         for c1 in itertools.product([0, 1], repeat=3):
             configs.append((["chr1"] * 3, list(lv), list(c1), None, False))
+    # segments without heterozygous SNPs carry missing allelic copy numbers: neighbours equal in cn and both missing share their level
+    # (a missing level next to a known one within one cn run is left out: the property does not say which way it goes)
+    for lv, c1 in (([2, 2], [None, None]), ([2, 2, 2], [None, None, None]), ([2, 2, 3, 3], [None, None, None, None]), ([1, 2, 2], [0, None, None]), ([2, 2, 1], [None, None, 1]),
+                   ([3, 2, 2, 2, 1], [2, None, None, None, 0])):
+        configs.append((["chr1"] * len(lv), lv, c1, None, False))
     for lv in itertools.product([0, 2, 4], repeat=3):
         for arms in ([0, 0, 1], [0, 1, 1], [0, 0, 0]):
             for chroms in (["chr1"] * 3, ["chr1", "chr1", "chr2"]):
